@@ -162,7 +162,11 @@ def nelder_mead(
             evaluate.to_user(values[0]),
             evaluate.evals,
         ):
-            return Result(simplex[0], evaluate.to_user(values[0]), iteration, evaluate.evals, Status.FEASIBLE)
+            # this iteration's replacement is not sorted in yet: return the best vertex, not the stale first one
+            best_idx = min(range(n + 1), key=lambda i: values[i])
+            return Result(
+                simplex[best_idx], evaluate.to_user(values[best_idx]), iteration, evaluate.evals, Status.FEASIBLE
+            )
 
     # Find best vertex
     best_idx = min(range(n + 1), key=lambda i: values[i])
